@@ -50,6 +50,7 @@ type jop struct {
 	Op     string   `json:"op"`
 	Points []jpoint `json:"points,omitempty"`
 	Series []int    `json:"series,omitempty"`
+	Keys   []int    `json:"keys,omitempty"` // judged part of a delete: one series-field key
 	Key    int      `json:"key,omitempty"`
 	Lo     int64    `json:"lo,omitempty"`
 	Hi     int64    `json:"hi,omitempty"`
@@ -61,10 +62,10 @@ type jop struct {
 	Err string     `json:"err,omitempty"`
 }
 type jcase struct {
-	Plan  [][]jop `json:"plan"`            // per goroutine: the ops it will issue
-	Hist  []jop   `json:"hist,omitempty"`  // observed history
-	Lin   []int   `json:"lin,omitempty"`   // linearisation found (indices into Hist)
-	Note  string  `json:"note,omitempty"`
+	Plan [][]jop `json:"plan"`           // per goroutine: the ops it will issue
+	Hist []jop   `json:"hist,omitempty"` // observed history
+	Lin  []int   `json:"lin,omitempty"`  // linearisation found (indices into Hist)
+	Note string  `json:"note,omitempty"`
 }
 
 type seriesIterator struct{ keys [][]byte }
@@ -271,16 +272,26 @@ func (s spec) apply(op *jop) {
 			s[k][p.T] = p.V
 		}
 	case "delete":
-		for _, sr := range op.Series {
-			for f := 0; f < nFields; f++ {
-				for t := range s[sr*nFields+f] {
-					if op.Lo <= t && t <= op.Hi {
-						delete(s[sr*nFields+f], t)
-					}
+		for _, k := range delKeys(op) {
+			for t := range s[k] {
+				if op.Lo <= t && t <= op.Hi {
+					delete(s[k], t)
 				}
 			}
 		}
 	}
+}
+func delKeys(op *jop) []int {
+	if len(op.Keys) > 0 {
+		return op.Keys
+	}
+	var ks []int
+	for _, sr := range op.Series {
+		for f := 0; f < nFields; f++ {
+			ks = append(ks, sr*nFields+f)
+		}
+	}
+	return ks
 }
 func (s spec) read(op *jop) [][2]int64 {
 	var ts []int64
@@ -330,9 +341,6 @@ func eqRes(a, b [][2]int64) bool {
 // linearise: hist = relevant completed ops (write/delete/read). Returns an order or nil.
 func linearise(hist []jop) []int {
 	n := len(hist)
-	if n > 60 {
-		return nil
-	}
 	memo := map[string]bool{}
 	var order []int
 	var rec func(done uint64, st spec) bool
@@ -398,10 +406,8 @@ func term(hist []jop, lin []int) string {
 			xs = append(xs, "COp (Write "+vh.List(ps)+") true")
 		case "delete":
 			var ks []string
-			for _, s := range op.Series {
-				for f := 0; f < nFields; f++ {
-					ks = append(ks, vh.N(uint64(s*nFields+f)))
-				}
+			for _, k := range delKeys(op) {
+				ks = append(ks, vh.N(uint64(k)))
 			}
 			xs = append(xs, fmt.Sprintf("COp (Delete %s %s %s) true", vh.List(ks), vh.Z(op.Lo), vh.Z(op.Hi)))
 		case "read":
@@ -436,6 +442,16 @@ func runCase(w *vh.W, c *jcase) {
 			time.Sleep(time.Duration(pert%5) * 50 * time.Microsecond)
 		}
 	})
+	// Warm-up: unless the case is marked cold, one acknowledged write completes before the
+	// goroutines start, so that the cache's lazy initialisation does not race with the first
+	// concurrent writes (tsm1.Cache.init publishes its flag before installing the ring store: C09's
+	// known finding; at engine level it makes an acknowledged write invisible until restart).
+	var warm *jop
+	if !c.Cold {
+		warm = &jop{G: 99, Op: "write", Points: []jpoint{{Series: 0, Field: 0, T: 100, V: 1000000}}}
+		var cl atomic.Bool
+		exec(e, warm, &cl)
+	}
 	var closed atomic.Bool
 	var wg sync.WaitGroup
 	var panics []string
@@ -497,6 +513,9 @@ func runCase(w *vh.W, c *jcase) {
 	}
 	verifhook.Set(nil)
 	c.Hist = nil
+	if warm != nil {
+		c.Hist = append(c.Hist, *warm)
+	}
 	for _, ops := range results {
 		c.Hist = append(c.Hist, ops...)
 	}
@@ -514,15 +533,46 @@ func runCase(w *vh.W, c *jcase) {
 			failure = fmt.Sprintf("%s by goroutine %d returned error: %s", op.Op, op.G, op.Err)
 		}
 		switch op.Op {
-		case "write", "delete", "read":
+		case "write":
+			// WritePoints is atomic per series-field key (one cache entry is updated under its lock),
+			// not across the keys of a batch: a reader running concurrently with an in-flight batch may
+			// see some of its keys and not others. Judge each key's part as its own atomic operation
+			// with the batch's invocation/response interval.
+			seen := map[int]bool{}
+			for _, p := range op.Points {
+				k := p.Series*nFields + p.Field
+				if seen[k] {
+					continue
+				}
+				seen[k] = true
+				sub := op
+				sub.Points = nil
+				for _, q := range op.Points {
+					if q.Series*nFields+q.Field == k {
+						sub.Points = append(sub.Points, q)
+					}
+				}
+				rel = append(rel, sub)
+			}
+		case "delete":
+			// likewise a series delete is applied key by key (tombstones per TSM key, cache per key)
+			for _, k := range delKeys(&op) {
+				sub := op
+				sub.Keys = []int{k}
+				rel = append(rel, sub)
+			}
+		case "read":
 			rel = append(rel, op)
 		}
-		if op.Op == "snapshot" {
+		if op.Op == "snapshot" || op.Op == "backup" { // Backup forces a cache snapshot (CreateSnapshot)
 			snaps = append(snaps, [2]int64{op.Inv, op.Ret})
 		}
 		if op.Op == "delete" {
 			dels = append(dels, [2]int64{op.Inv, op.Ret})
 		}
+	}
+	if c.Cold {
+		sig = "cache-init-race-first-concurrent-writes"
 	}
 	for _, d := range dels { // known-finding shape: a delete overlapping a snapshot in real time
 		for _, s := range snaps {
@@ -531,8 +581,40 @@ func runCase(w *vh.W, c *jcase) {
 			}
 		}
 	}
+	// A range delete is not atomic for a concurrent reader (tombstones are applied to the TSM files
+	// first, the cache is filtered afterwards), and the property speaks of serial orders of COMPLETED
+	// operations: a read that overlaps a delete of its own series in real time is not judged.
+	{
+		kept := rel[:0:0]
+		for _, op := range rel {
+			skip := false
+			if op.Op == "read" {
+				for _, d := range c.Hist {
+					if d.Op != "delete" || !(d.Inv < op.Ret && op.Inv < d.Ret) {
+						continue
+					}
+					for _, sr := range d.Series {
+						if sr == op.Key/nFields {
+							skip = true
+						}
+					}
+				}
+			}
+			if skip {
+				w.Count("reads_not_judged", "overlaps-delete-of-same-series")
+				continue
+			}
+			kept = append(kept, op)
+		}
+		rel = kept
+	}
 	var lin []int
-	if failure == "" {
+	if failure == "" && len(rel) > 62 {
+		// beyond the search's bit-set width: not judged (counted, never an alarm)
+		w.Count("histories_not_judged", "more-than-62-atomic-parts")
+		rel = nil
+		lin = []int{}
+	} else if failure == "" {
 		lin = linearise(rel)
 		if lin == nil {
 			failure = "no linearisation: the completed reads cannot be explained by any serial order of the completed writes/deletes consistent with real time"
@@ -560,6 +642,7 @@ func gen(w *vh.W) jcase {
 	r := w.Rng
 	var c jcase
 	ng := 3 + r.IntN(3)
+	c.Cold = r.IntN(10) == 0
 	var val int64
 	withDelete := r.IntN(3) == 0
 	for g := 0; g < ng; g++ {
